@@ -777,6 +777,9 @@ vf_alloc_install(nng_init_params *p)
 	p->calloc_fn = a_calloc;
 	p->free_fn   = a_free;
 	a_installed  = true;
+	if (getenv("VF_ALLOC_SITES") != NULL) {
+		a_profile = true;
+	}
 }
 
 long
@@ -853,12 +856,14 @@ vf_alloc_report(const char *prefix)
 	struct {
 		size_t   size;
 		uint64_t seq;
+		uint64_t site;
 	} leaks[16];
 	int nl = 0;
 	for (ahdr *h = a_head.next; h != &a_head; h = h->next) {
 		if (nl < 16) {
 			leaks[nl].size = h->size;
 			leaks[nl].seq  = h->seq;
+			leaks[nl].site = h->site;
 			nl++;
 		}
 		n++;
@@ -868,6 +873,12 @@ vf_alloc_report(const char *prefix)
 		char key[128];
 		snprintf(key, sizeof(key), "%s/leak/size=%zu", prefix,
 		    leaks[i].size);
+		for (int s = 0; s < a_nsites; s++) {
+			if (leaks[i].site != 0 && a_sites[s].hash == leaks[i].site) {
+				fprintf(stderr, "leaked %zu bytes allocated at %s\n",
+				    leaks[i].size, a_sites[s].desc);
+			}
+		}
 		vf_violation(key,
 		    "block of %zu bytes (allocation #%llu) still live after "
 		    "nng_fini (%ld live blocks in total)",
@@ -1329,6 +1340,57 @@ nni_verif_pt(int site)
 	errno = saved;
 }
 
+// ring of recent aio completion / start events with stacks (diagnostics for
+// the exactly-once monitor: shows who completed an aio before)
+#define AIO_RING 8192
+static struct {
+	const void *aio;
+	int         ev;
+	int         rv;
+	int         n;
+	void       *bt[10];
+} aio_ring[AIO_RING];
+static _Atomic unsigned long aio_ring_pos;
+static int                   aio_trace = -1;
+
+static void
+aio_ring_record(int ev, const void *aio, int rv)
+{
+	if (aio_trace < 0) {
+		const char *e = getenv("VF_AIO_TRACE");
+		aio_trace     = e ? atoi(e) : 1;
+	}
+	if (!aio_trace) {
+		return;
+	}
+	unsigned long p = atomic_fetch_add_explicit(
+	    &aio_ring_pos, 1, memory_order_relaxed);
+	unsigned i      = (unsigned) (p % AIO_RING);
+	aio_ring[i].aio = NULL;
+	aio_ring[i].ev  = ev;
+	aio_ring[i].rv  = rv;
+	aio_ring[i].n   = backtrace(aio_ring[i].bt, 10);
+	aio_ring[i].aio = aio;
+}
+
+static void
+aio_ring_dump(const void *aio)
+{
+	unsigned long end = atomic_load(&aio_ring_pos);
+	unsigned long beg = end > AIO_RING ? end - AIO_RING : 0;
+	int           shown = 0;
+	for (unsigned long p = end; p > beg && shown < 4; p--) {
+		unsigned i = (unsigned) ((p - 1) % AIO_RING);
+		if (aio_ring[i].aio != aio) {
+			continue;
+		}
+		fprintf(stderr, "  earlier event #%d on aio %p: ev=%d rv=%d at:\n",
+		    shown, aio, aio_ring[i].ev, aio_ring[i].rv);
+		backtrace_symbols_fd(aio_ring[i].bt + 2, aio_ring[i].n - 2, 2);
+		shown++;
+	}
+}
+
 static _Atomic long ev_count[NNI_VE_NEVENTS];
 static _Atomic long ev_tasks, ev_poll, ev_reap;
 static vf_ev_cb     ev_cb;
@@ -1375,6 +1437,11 @@ nni_verif_ev(int ev, const void *obj, uintptr_t a, uintptr_t b)
 	case NNI_VE_REAP_END:
 		atomic_fetch_sub_explicit(&ev_reap, 1, memory_order_relaxed);
 		break;
+	case NNI_VE_AIO_FINISH:
+	case NNI_VE_AIO_REFUSED:
+	case NNI_VE_AIO_BEGIN:
+		aio_ring_record(ev, obj, (int) a);
+		break;
 	default:
 		break;
 	}
@@ -1402,7 +1469,19 @@ nni_verif_fail(const char *prop, const char *fmt, ...)
 	}
 	word[i] = 0;
 	snprintf(key, sizeof(key), "hook/%s/%s", prop, word);
+	long before = n_viol_keys;
 	vf_violation(key, "%s", buf);
+	if (n_viol_keys != before) {
+		// first occurrence of this key: show where the library was
+		void *bt[16];
+		int   n = backtrace(bt, 16);
+		fprintf(stderr, "hook failure %s: backtrace:\n", key);
+		backtrace_symbols_fd(bt, n, 2);
+		const char *ap = strstr(buf, "aio=0x");
+		if (ap != NULL) {
+			aio_ring_dump((const void *) (uintptr_t) strtoull(ap + 4, NULL, 16));
+		}
+	}
 }
 
 long
